@@ -12,7 +12,16 @@ RowMin(C, i, used) == IF i > NR(C) THEN 0
                            IN CHOOSE m \in vals : \A x \in vals : m <= x
 Transpose(C) == [j \in 1..NC(C) |-> [i \in 1..NR(C) |-> C[i][j]]]
 Neg(C) == [i \in 1..NR(C) |-> [j \in 1..NC(C) |-> -C[i][j]]]
-OptMin(C) == IF NR(C) <= NC(C) THEN RowMin(C, 1, {}) ELSE RowMin(Transpose(C), 1, {})
+\* beyond 7 columns: dynamic programming over column subsets (exact, n * 2^n instead of n!).  Level(C, k) maps every set S of k
+\* columns to the cheapest way of giving rows 1..k pairwise different columns of S; rows <= cols
+MinOf(vals) == CHOOSE m \in vals : \A x \in vals : m <= x
+RECURSIVE Level(_, _)
+Level(C, k) == IF k = 0 THEN [S \in {{}} |-> 0]
+               ELSE LET prev == Level(C, k - 1)
+                    IN [S \in {T \in SUBSET (1..NC(C)) : Cardinality(T) = k} |-> MinOf({prev[S \ {j}] + C[k][j] : j \in S})]
+DpMin(C) == LET top == Level(C, NR(C)) IN MinOf({top[S] : S \in DOMAIN top})
+RowsLeCols(C) == IF NR(C) <= NC(C) THEN C ELSE Transpose(C)
+OptMin(C) == LET D == RowsLeCols(C) IN IF NC(D) <= 7 THEN RowMin(D, 1, {}) ELSE DpMin(D)
 OptAssign(C, minimize) == IF minimize THEN OptMin(C) ELSE -OptMin(Neg(C))
 \* twin: explicit enumeration of injections (small sizes only)
 Injections(S, U) == {g \in [S -> U] : \A a, b \in S : a # b => g[a] # g[b]}
